@@ -161,6 +161,8 @@ def machine_run(prop, streams=("random",)):
                 cases += [MM.pingpong_case(ctx.rng, cfg, "pp%d" % k) for k in range(ncase // 4)]
             if "planveto" in streams and cfg.plans:
                 cases += [MM.plan_veto_case(ctx.rng, cfg, "pv%d" % k) for k in range(ncase // 2)]
+            if "reactivate" in streams and cfg.plans:
+                cases += [MM.reactivation_case(ctx.rng, cfg, "ra%d" % k) for k in range(ncase // 2)]
             if "replica" in streams and cfg.history:
                 cases += [MM.replica_case(ctx.rng, cfg, "rep%d" % k, ctx.rng.randint(4, 14)) for k in range(ncase // 2)]
             rc_i, ci, rc_m, cm = MM.run_cases(exe, cases, timeout=(240 if ctx.thorough else 60) * (2 if cfg.L == 255 else 1))
@@ -189,15 +191,18 @@ def machine_run(prop, streams=("random",)):
                     if l.startswith("FAIL:") or "CORRUPT" in l:
                         ctx.failures.append({"what": l, "case": case, "cfg": cfg.cfg_line()})
                         break
-                v = O.run(prop, case[1], a)
+                rerun = (lambda c, _exe=exe: (MM.run_impl(_exe, c) or None))
+                # the implementation-only twin runs (C16 / C17) cost extra executions: every case in thorough, a share in quick
+                use_twin = ctx.thorough or ctx.broken or (ctx.stats["evaluations"] % 3 == 0)
+                v = O.run(prop, case, a, rerun if use_twin else None)
                 if v and sum(1 for f_ in ctx.failures if "oracle" in f_) < 2:
-                    def still(c, _exe=exe):
-                        r = MM.run_cases(_exe, [c], timeout=60)
-                        return bool(r[1]) and O.run(prop, c[1], r[1][0]) is not None
+                    def still(c, _exe=exe, _rerun=rerun):
+                        r = MM.run_impl(_exe, c)
+                        return bool(r) and O.run(prop, c, r, _rerun) is not None
                     mc = MM.minimise_case(exe, case, prop, still)
-                    r = MM.run_cases(exe, [mc], timeout=60)
-                    ctx.failures.append({"oracle": prop, "what": O.run(prop, mc[1], r[1][0]) or v, "minimal_case": mc, "cfg": cfg.cfg_line(),
-                                         "impl_trace": r[1][0][-14:]})
+                    r = MM.run_impl(exe, mc)
+                    ctx.failures.append({"oracle": prop, "what": O.run(prop, mc, r, rerun) or v, "minimal_case": mc, "cfg": cfg.cfg_line(),
+                                         "impl_trace": r[-14:]})
                 if prop == "C11" and case[0].startswith("case rep"):
                     v = MM.oracle_replica(a)
                     if v:
@@ -347,7 +352,7 @@ def c18_run(ctx):
             continue
         cases = [MM.gen_case(ctx.rng, cfg, "s%d" % k, ctx.rng.randint(8, 24)) for k in range(200 if ctx.thorough else 50)]
         cases += [MM.pingpong_case(ctx.rng, cfg, "pp%d" % k) for k in range(8)]
-        rc_i, ci, rc_m, cm = MM.run_cases(exe, cases)
+        rc_i, ci, rc_m, cm = MM.run_cases(exe, cases, timeout=240 if ctx.thorough else 60)
         ctx.stats["evaluations"] += len(ci)
         ctx.stats["programs"] = ctx.stats.get("programs", 0) + 1
         for a in ci:
@@ -355,9 +360,19 @@ def c18_run(ctx):
                 ctx.stats["distinct"].add(hash(tuple(a[1:])))
         if rc_i != 0 or len(ci) != len(cases):
             bad = cases[len(ci) - 1] if 0 < len(ci) <= len(cases) else None
-            rc2, out2 = C.run([exe], input="\n".join(bad or []) + "\n", timeout=120)
+
+            def run1(c, t=8):
+                import subprocess
+                try:
+                    return C.run([exe], input="\n".join(c) + "\n", timeout=t)
+                except subprocess.TimeoutExpired as e:
+                    o = e.stdout or ""
+                    return -999, (o.decode("utf-8", "replace") if isinstance(o, bytes) else o)
+            rc2, out2 = run1(bad or [], 40)
             tail = [l for l in out2.split("\n") if "runtime error" in l or "ERROR: AddressSanitizer" in l or "SUMMARY" in l][:4]
-            mc = MM.minimise_case(exe, bad, "C18", lambda c: C.run([exe], input="\n".join(c) + "\n", timeout=120)[0] != 0) if bad else None
+            if rc2 == -999:
+                tail = ["an API call does not return (the sanitized harness was stopped after 40 s)"]
+            mc = MM.minimise_case(exe, bad, "C18", lambda c: run1(c)[0] != 0, budget=24) if bad else None
             ctx.failures.append({"what": "sanitizer abort in the machine harness: %s" % tail, "cfg": cfg.cfg_line(), "minimal_case": mc})
             continue
         for a, b in zip(ci, cm):
@@ -412,11 +427,11 @@ REGISTRY = {
     "C06": Spec("FFSM2.Props.C06", ["ids"], machine_run("C06")),
     "C07": Spec("FFSM2.Props.C07", ["ids"], machine_run("C07")),
     "C08": Spec("FFSM2.Props.C08", ["ids", "config"], machine_run("C08", ("random", "planveto"))),
-    "C09": Spec("FFSM2.Props.C09", ["ids", "config"], machine_run("C09", ("random", "planveto"))),
+    "C09": Spec("FFSM2.Props.C09", ["ids", "config"], machine_run("C09", ("random", "planveto", "reactivate"))),
     "C11": Spec("FFSM2.Props.C11", ["ids"], machine_run("C11", ("random", "replica"))),
     "C12": Spec("FFSM2.Props.C12", ["ids", "serial", "bitwidth", "contain", "typebits", "buffers"], c12_run),
     "C16": Spec("FFSM2.Props.C16", ["ids"], machine_run("C16")),
-    "C17": Spec("FFSM2.Props.C17", ["ids"], machine_run("C17")),
+    "C17": Spec("FFSM2.Props.C17", ["ids"], machine_run("C17", ("random", "reactivate"))),
 }
 
 
@@ -465,7 +480,7 @@ def replay(ctx):
             model = r[3][0] if r[3] else []
             pa, pb = MM.projected(ctx.prop, impl), MM.projected(ctx.prop, model)
             k = next((j for j in range(min(len(pa), len(pb))) if pa[j] != pb[j]), None if len(pa) == len(pb) else min(len(pa), len(pb)))
-            v = O.run(ctx.prop, case[1], impl)
+            v = O.run(ctx.prop, case, impl, lambda c: (MM.run_impl(exe, c) or None))
             C.log("replay: %d ops; first projected difference: %s; oracle: %s" % (sum(1 for l in case if l.startswith("op ")), k, v))
             if k is not None:
                 C.log("  impl : " + " | ".join(pa[max(0, k - 2):k + 2])); C.log("  model: " + " | ".join(pb[max(0, k - 2):k + 2]))
